@@ -341,13 +341,20 @@ async def check_real_weights(ctx):
 
 
 # ------------------------------------------------------------------------------------------------
+def _initial_states(stdout):
+    """number of initial states TLC reports (vacuity guard of the emission: one line per instance / per transition)"""
+    import re
+    m = re.search(r"Finished computing initial states: (\d+) distinct state", stdout)
+    return int(m.group(1)) if m else 0
+
+
 def _inst_key(inst):
     return json.dumps([sorted(inst["avail"]), bool(inst["mixed"]), inst["toks"],
                        sorted((e["i"], e["k"], e["s"], e["t"]) for e in inst["reg"])], sort_keys=True)
 
 
 def run(ctx):
-    from concurrent.futures import ThreadPoolExecutor
+    from concurrent.futures import ProcessPoolExecutor, ThreadPoolExecutor
     ctx.rule = ("TLC enumerates every instance of the exhaustive configurations (job inputs x registry x available locations) and "
                 "the complete graph of the dynamic configuration; every enumerated instance, random larger instances answered by "
                 "TLC, a path cover of the dynamic graph and instances driven through the real DefaultScheduler are evaluated on the "
@@ -370,9 +377,9 @@ def run(ctx):
         json.dump(queries, f)
     jobs = {}
     for name in STATIC[tier]:
-        jobs[("static", name)] = dict(module="MC_DataLocality", cfg="MC_DataLocality_%s.cfg" % name, coverage=True, timeout=3000)
+        jobs[("static", name)] = dict(module="MC_DataLocality", cfg="MC_DataLocality_%s.cfg" % name, timeout=3000)
     for name in DYN[tier]:
-        jobs[("dyn", name)] = dict(module="MC_DataLocality", cfg="MC_DataLocality_%s.cfg" % name, workers=1, coverage=True, timeout=3000)
+        jobs[("dyn", name)] = dict(module="MC_DataLocality", cfg="MC_DataLocality_%s.cfg" % name, workers=1, timeout=3000)
     jobs[("live", "live")] = dict(module="MC_DataLocality", cfg="MC_DataLocality_live.cfg", timeout=3000)
     jobs[("q", "q")] = dict(module="Q_DataLocality", cfg="Q_DataLocality.cfg", workdir=qwd, env={"QUERY_FILE": qf, "OUT_FILE": of},
                             workers=1, count=False, timeout=3000)
@@ -405,22 +412,28 @@ def run(ctx):
                 if isinstance(x, dict) and "inst" in x:
                     yield x
 
-    async def static_some(items, src):
-        for x in items:
-            tally["n"] += 1
-            n = tally["n"]
-            inst = x["inst"]
-            variant = (ctx.seed * 7 + n) % 12
-            cls = await D.check_static(ctx, inst, x, variant, src)
-            key = cls if src == "enum" else "q:" + cls
-            classes[key] = classes.get(key, 0) + 1
-            ctx.case((src, n), nontrivial=cls not in ("fallback",))
-            tally["bylist"] += 1 if x["bylist"] else 0
-            tally["stat"] += 1 if x["stat"] else 0
-            if (cls == "bydata" and len(inst["toks"]) == 2 and len(inst["reg"]) == 2 and len(inst["avail"]) == 3 and len(ctx.samples) < 2
-                    and all(t["kind"] != "plain" for t in inst["toks"]) and inst["toks"][0]["w"] < inst["toks"][1]["w"]
-                    and inst["reg"][0]["s"] != inst["reg"][1]["s"] and inst["reg"][0]["i"] != inst["reg"][1]["i"]):
-                ctx.sample({"instance": inst, "spec_acceptable": x["contract"], "spec_weights": x["w"]})
+    pool = ProcessPoolExecutor(max_workers=min(ctx.pick(4, 8), os.cpu_count() or 2))
+
+    def static_some(items, src):
+        """the instances are independent: chunks are evaluated by worker processes, verdicts are reported here, in order"""
+        chunk = 1500
+        jobs_ = [(items[a:a + chunk], tally["n"] + a + 1, ctx.seed, src) for a in range(0, len(items), chunk)]
+        for (part, first, _, _), out in zip(jobs_, pool.map(D.static_worker, jobs_)):
+            ctx.require(out["machinery"] is None, "static binding: %s" % out["machinery"])
+            for sig, det, what in out["violations"]:
+                ctx.violation(sig, det, what)
+            for k, (x, cls) in enumerate(zip(part, out["classes"])):
+                inst = x["inst"]
+                key = cls if src == "enum" else "q:" + cls
+                classes[key] = classes.get(key, 0) + 1
+                ctx.case((src, first + k), nontrivial=cls not in ("fallback",))
+                tally["bylist"] += 1 if x["bylist"] else 0
+                tally["stat"] += 1 if x["stat"] else 0
+                if (cls == "bydata" and len(inst["toks"]) == 2 and len(inst["reg"]) == 2 and len(inst["avail"]) == 3 and len(ctx.samples) < 2
+                        and all(t["kind"] != "plain" for t in inst["toks"]) and inst["toks"][0]["w"] < inst["toks"][1]["w"]
+                        and inst["reg"][0]["s"] != inst["reg"][1]["s"] and inst["reg"][0]["i"] != inst["reg"][1]["i"]):
+                    ctx.sample({"instance": inst, "spec_acceptable": x["contract"], "spec_weights": x["w"]})
+        tally["n"] += len(items)
 
     seen_keys = set()
     for name in STATIC[tier]:
@@ -438,23 +451,21 @@ def run(ctx):
             if keep:
                 table[k] = x
                 insts.append(x)
+        ninit = _initial_states(r.stdout)
         r.stdout = ""          # hundreds of megabytes in the thorough tier
-        ninit = r.coverage.get("Init", [0, 0])[0]
+        lines.sort(key=lambda x: _inst_key(x["inst"]))      # TLC's workers write in any order: numbering must not depend on it
         ctx.require(nlines == ninit and nlines > 100 and r.distinct >= 2 * ninit,
                     "emission incomplete on %s: %d instances written, %d initial states, %d states" % (name, nlines, ninit, r.distinct))
         ctx.count("instances:%s" % name, nlines)
         ctx.count("model_states:%s" % name, r.distinct)
-        _, exc = aio.run(static_some(lines, "enum"), timeout=None)
-        if exc is not None:
-            raise exc
+        static_some(lines, "enum")
         del lines
     ctx.require(os.path.exists(of), "Q_DataLocality wrote no answers")
     with open(of) as f:
         answers = json.load(f)
     ctx.require(len(answers) == len(queries), "Q_DataLocality answered %d of %d" % (len(answers), len(queries)))
-    _, exc = aio.run(static_some([dict(a, inst=q) for q, a in zip(queries, answers)], "query"), timeout=None)
-    if exc is not None:
-        raise exc
+    static_some([dict(a, inst=q) for q, a in zip(queries, answers)], "query")
+    pool.shutdown()
     ctx.impl_trace(tally["n"])
     for c, v in sorted(classes.items()):
         ctx.count("static:%s" % c, v)
@@ -468,7 +479,7 @@ def run(ctx):
     for name in DYN[tier]:
         r = res[("dyn", name)]
         trs = [x for x in r.printed_json() if isinstance(x, dict) and "a" in x and "f" in x]
-        ninit = r.coverage.get("DynInit", [0, 0])[0]
+        ninit = _initial_states(r.stdout)
         ctx.require(ninit > 0 and len(trs) == r.generated - ninit and len(trs) > 100,
                     "emission incomplete on %s: %d lines, %d states generated, %d initial" % (name, len(trs), r.generated, ninit))
         for an in ("Call", "StatDone", "Env"):
@@ -506,6 +517,7 @@ def run(ctx):
         return x
     cand = [x["inst"] for x in insts if not x["inst"]["mixed"] and not x["stat"] and max([0] + x["inst"]["avail"]) <= 3
             and all(e["s"] <= 3 for e in x["inst"]["reg"])]
+    cand.sort(key=_inst_key)
     interesting = [i for i in cand if lookup(i)["bydata"]]
     rng.shuffle(interesting)
     rng.shuffle(cand)
